@@ -290,6 +290,25 @@ def rng_for(seed: int, label: str) -> random.Random:
     return random.Random(f"{seed}:{label}")
 
 
+_PARSE_FORMS = [0]
+
+
+def parse_with(p, cc) -> str:
+    """call `parse` with charge-conjugate decays enabled (cc true) or disabled, rotating over every way of writing that call that
+    is legal on the unchanged tree (keyword, positional, the falsy / truthy spellings); returns the form used"""
+    _PARSE_FORMS[0] += 1
+    k = _PARSE_FORMS[0]
+    if cc:
+        forms = [("parse()", lambda: p.parse()), ("parse(include_ccdecays=True)", lambda: p.parse(include_ccdecays=True)),
+                 ("parse(True)", lambda: p.parse(True))]
+    else:
+        forms = [("parse(include_ccdecays=False)", lambda: p.parse(include_ccdecays=False)), ("parse(False)", lambda: p.parse(False)),
+                 ("parse(0)", lambda: p.parse(0)), ("parse(None)", lambda: p.parse(None))]
+    name, fn = forms[k % len(forms)]
+    fn()
+    return name
+
+
 def canon_json(x) -> str:
     return json.dumps(x, sort_keys=True, separators=(",", ":"))
 
